@@ -211,6 +211,7 @@ structure JState where
   bad : List String := []
   pendingUnit : List (List String) := []       -- unit commands whose output has not been seen yet
   foreign : List String := []                  -- binaries of another driver build / configuration / program name
+  binOwner : List (String × String) := []      -- binary ↦ the program whose saved binary its content is (copies)
   damaged : List String := []                  -- programs whose saved binary was damaged since it was written
   expects : List (String × String) := []       -- call ↦ the value the source text prescribes (string switch cases)
   -- which version of every program is in memory (independent of the implementation's data structures: load numbers)
@@ -221,6 +222,8 @@ structure JState where
   poisoned : List (String × List (String × Nat)) := [] -- saved binary ↦ parents that were out of date when it was compiled
   incsearch : List (String × List String) := []  -- program ↦ the candidates of one include directive, in search order
   resolved : List (String × List (Option String)) := [] -- saved binary ↦ what each of its directives resolved to then
+  resolvedParents : List (String × List (String × List (Option String))) := []
+    -- saved binary ↦ for every program it inherits (at any depth): what that program's directives resolved to then
   deriving Inhabited
 
 def JState.flag (s : JState) (v : String) : JState := { s with bad := v :: s.bad }
@@ -458,7 +461,17 @@ def traceLine (s : JState) (unitSeen : Nat) (line : String) : JState × Nat :=
   | ["end", _] => (endBlock s, unitSeen)
   | ["corrupted", name] => ({ s with damaged := name :: s.damaged }, unitSeen)
   | ["foreign", name, _] => ({ s with foreign := name :: s.foreign }, unitSeen)
-  | ["copybin", _, dst] => ({ s with foreign := dst :: s.foreign }, unitSeen)
+  | ["copybin", src, dst] =>
+    -- the file (content, modification time, damage) of src now also stands at dst's place; it is a foreign binary there
+    -- unless its content is the binary that was saved for dst (a copy that came back)
+    let owner := (s.binOwner.lookup src).getD src
+    let tampered := s.foreign.contains src && owner == src
+    let fg := s.foreign.filter (fun x => x != dst)
+    let fg := if owner != dst || tampered then dst :: fg else fg
+    let dm := s.damaged.filter (fun x => x != dst)
+    let dm := if s.damaged.contains src then dst :: dm else dm
+    let bt := match s.binT.lookup src with | some t => setKey s.binT dst t | none => s.binT
+    ({ s with foreign := fg, damaged := dm, binT := bt, binOwner := setKey s.binOwner dst owner }, unitSeen)
   | ["lb", name, "use"] =>
     let s := (staleReasons s name).foldl JState.flag s
     let s := if s.damaged.contains name then s.flag s!"damaged-binary-used {name}" else s
@@ -467,6 +480,12 @@ def traceLine (s : JState) (unitSeen : Nat) (line : String) : JState × Nat :=
     -- been loaded again since: the layout in the binary is not the one the current sources give
     let s := (((s.poisoned.lookup name).getD []).filter (fun q => ((s.mem.lookup q.1).map (·.1)) != some q.2)).foldl
       (fun s q => s.flag s!"stale-binary-used {name} dep=compiled-against-older-version-of:{q.1}") s
+    -- the same for the directives of the programs it inherits: the binary was laid out for parents built from those files
+    let s :=
+      ((s.resolvedParents.lookup name).getD []).foldl (fun (s : JState) (q : String × List (Option String)) =>
+        ((q.2.zip (resolveNow s q.1)).filter (fun (p : Option String × Option String) => p.1 != p.2)).foldl
+          (fun (s : JState) (p : Option String × Option String) =>
+            s.flag s!"stale-binary-used {name} dep=include-of-inherited-shadowed-by:{p.2.getD "?"}:{q.1}") s) s
     -- an include directive that would now find another file (a new file earlier in the search path)
     let s :=
       match s.resolved.lookup name with
@@ -484,8 +503,11 @@ def traceLine (s : JState) (unitSeen : Nat) (line : String) : JState × Nat :=
     | some t =>
       let dm := s.damaged.filter (fun x => x != name)
       let fg := s.foreign.filter (fun x => x != name)
-      ({ s with binT := setKey s.binT name t, damaged := dm, foreign := fg, poisoned := setKey s.poisoned name old,
-                resolved := setKey s.resolved name (resolveNow s name) },
+      ({ s with binT := setKey s.binT name t, damaged := dm, foreign := fg, binOwner := setKey s.binOwner name name,
+                poisoned := setKey s.poisoned name old,
+                resolved := setKey s.resolved name (resolveNow s name),
+                resolvedParents := setKey s.resolvedParents name
+                  (((declOf s name).inherits ++ indirectInherits s name).eraseDups.map (fun q => (q, resolveNow s q))) },
        unitSeen)
     | none =>
       -- not written: right only when the program was compiled against an out-of-date parent or the master refuses
